@@ -1667,10 +1667,23 @@ class Engine:
 
     # ---------------- loops -----------------
     def _loop_key(self, st):
+        """loops are keyed by their position in the function's source (n-th loop statement), not by execution order"""
         f = self.frame
+        fn = f.func.key if f.func else "?"
+        if f.func is not None:
+            order = getattr(f.func, "_loop_order", None)
+            if order is None:
+                order = {}
+                n = 0
+                for node in _walk_in_order(f.func.node):
+                    if isinstance(node, (ast.For, ast.While)):
+                        order[id(node)] = n
+                        n += 1
+                f.func._loop_order = order
+            if id(st) in order:
+                return "%s#loop%d" % (fn, order[id(st)])
         k = f.loop_ord
         f.loop_ord += 1
-        fn = f.func.key if f.func else "?"
         return "%s#loop%d" % (fn, k)
 
     def _loop_spec(self, st, key):
@@ -2207,8 +2220,21 @@ class Engine:
             raise EngineError("nested comprehension")
         g = n.generators[0]
         fkey = self.frame.func.key if self.frame.func else "?"
-        ck = self.frame.__dict__.setdefault("comp_ord", 0)
-        self.frame.comp_ord = ck + 1
+        ck = None
+        if self.frame.func is not None:
+            corder = getattr(self.frame.func, "_comp_order", None)
+            if corder is None:
+                corder = {}
+                cn = 0
+                for node in _walk_in_order(self.frame.func.node):
+                    if isinstance(node, (ast.ListComp, ast.GeneratorExp)):
+                        corder[id(node)] = cn
+                        cn += 1
+                self.frame.func._comp_order = corder
+            ck = corder.get(id(n))
+        if ck is None:
+            ck = self.frame.__dict__.setdefault("comp_ord", 0)
+            self.frame.comp_ord = ck + 1
         key = "%s#comp%d" % (fkey, ck)
         spec = self.contract.loop_spec_for(key, None)
         if spec is not None:
@@ -2224,6 +2250,15 @@ class Engine:
             self._cut_loop(loop, key, spec, kind="for", it=it)
             return self.frame.env.pop(tmp)
         it = self.eval(g.iter)
+        if isinstance(it, SOpq) and self.abstract:
+            # comprehension over an opaque iterable: an opaque list that is a function of the iterable
+            # (and of the comprehension's text); element-wise meaning is not modelled
+            import hashlib as _h
+
+            tag = _h.sha1(ast.unparse(n).encode()).hexdigest()[:10]
+            r = SOpq(V.uf("listcomp_" + tag, V.vsort(), V.vsort())(it.t))
+            self.event("pure", "listcomp", None, (it,), {"text": ast.unparse(n)}, n, r)
+            return r
         try:
             items = self.static_items_noforce(it)
         except EngineError:
@@ -2471,6 +2506,13 @@ def eng_elem(eng, inner, seq, i):
             return V.nth(V.to_seq(list(seq)), i)
         return seq[i]
     return V.nth(seq, i)
+
+
+def _walk_in_order(node):
+    """pre-order traversal in source order"""
+    yield node
+    for ch in ast.iter_child_nodes(node):
+        yield from _walk_in_order(ch)
 
 
 def _as_load(t):
